@@ -24,4 +24,4 @@ CLAIMED: dict[str, dict] = {
 NOT_YET = "check not built yet in this session (work in progress; see DESIGN.md section 9 build order)"
 
 # properties whose check has been integrated, run on the unchanged tree and reviewed by the lead
-READY = ["C05", "C07", "C09"]
+READY = ["C05", "C07", "C09", "C17", "C18"]
